@@ -28,7 +28,7 @@ from vlib import vparse, Broken
 
 TRANSPORT_RULE = ("scripted packet lists (4-14 packets on all four channels: SPS/PPS/IDR/non-IDR NAL units, AAC access units, RTCP "
                   "sender reports; 2..1400 bytes, 30% of the cases without UDP clients also 4000..65535) published into a registered "
-                  "media.Stream while 1-3 clients of mixed transports (RTSP/TCP, RTSP/UDP, ws-rtsp, WSP, HTTP-FLV, ws-FLV) with varied "
+                  "media.Stream while 1-3 clients of mixed transports (RTSP/TCP, RTSP/UDP, multicast, ws-rtsp, WSP, HTTP-FLV, ws-FLV) with varied "
                   "channel maps (swapped, high channel numbers, video-only, audio-only, RTP without RTCP) attach at scripted positions, "
                   "some stop mid-stream (TEARDOWN or dropped connection), then the stream ends (Close / replaced / idle); every RTP client "
                   "must have received exactly the subscribed sublist of replay ++ live (ok_wire), every FLV client exactly the tags of an "
@@ -37,11 +37,11 @@ TRANSPORT_RULE = ("scripted packet lists (4-14 packets on all four channels: SPS
 def transports(ck):
     rng = ck.rng
     n = 900 if ck.thorough else 70
-    pool = [T.TCP, T.TCP, T.UDP, T.WSRTSP, T.WSP, T.HTTPFLV, T.WSFLV]
+    pool = [T.TCP, T.TCP, T.UDP, T.WSRTSP, T.WSP, T.HTTPFLV, T.WSFLV, T.MCAST]
     cases = [T.gen_case(rng, True, pool, max_pkts=22 if ck.thorough else 14) for _ in range(n)]
     obs = ck.stream("transports", cases, None, "C01_transports", "C01_wire_ok", compare=False,
                     nontrivial=lambda c: len(c[2]) >= 2 or c[3][0][0] == 0,
-                    sig=lambda c, e, o: "transport-" + "-".join(sorted({str(cl[0]) for cl in c[2]})), timeout=1500)
+                    sig=lambda c, e, o: "transport-delivery", timeout=1500)
     # non-vacuity: media really flowed through every transport
     seen = {}
     for c, o in zip(cases, obs):
@@ -53,5 +53,5 @@ def transports(ck):
         except Exception:
             pass
     ck.extra["transport_clients_with_media"] = {str(k): v for k, v in sorted(seen.items())}
-    if obs and any(seen.get(k, 0) < 2 for k in range(6)):
+    if obs and any(seen.get(k, 0) < 2 for k in range(7)):
         ck.broken.append(Broken("C01 transports: a transport no longer carries media in the harness: %r" % seen))
